@@ -498,6 +498,50 @@ func c03MidLine(w *bufio.Writer, rng *hx.Rng) {
 	b.emit(w, mode, rng.Range(1, 2), bufs[rng.Intn(len(bufs))], rng.Range(1, 3), "x")
 }
 
+// inode reuse: run 1 reads, acks and saves file f; while down f is deleted and a new file that got f's inode
+// number is staged outside the directory; after the start-up scan of run 2 it is moved in: a late file. It must
+// be read from its beginning although the offsets loaded at start still hold f's entry. One stream only, so
+// that a line lost below the stale offset can never be taken for the unlisted-stream finding.
+func c03InodeReuse(w *bufio.Writer, rng *hx.Rng) {
+	b := &c03B{}
+	f := b.newFile()
+	other := -1
+	if rng.Chance(1, 2) {
+		other = b.newFile()
+		b.appendLines(rng, other, rng.Range(1, 2), 1)
+	}
+	b.appendLines(rng, f, rng.Range(2, 4), 1)
+	b.step("U")
+	b.step("W")
+	b.step("KA")
+	b.step("S")
+	b.step("X")
+	var d []byte
+	for k := rng.Range(1, 8); k > 0; k-- { // shorter or longer than the stale offset
+		d = append(d, b.line("a", rng.Range(0, 8))...)
+	}
+	b.step("DS %d %s", f, hx.Enc(d))
+	if other >= 0 && rng.Chance(1, 2) {
+		b.appendLines(rng, other, 1, 1)
+	}
+	b.step("U")
+	b.step("W")
+	b.step("MV %d", f)
+	b.step("W")
+	for k := rng.Range(0, 3); k > 0; k-- {
+		b.step("K %d", rng.Intn(3))
+	}
+	if rng.Chance(1, 2) {
+		b.appendLines(rng, f, rng.Range(1, 2), 1)
+	}
+	mode := "s"
+	if rng.Chance(1, 3) {
+		mode = "a"
+	}
+	bufs := []int{16, 64, 4096}
+	b.emit(w, mode, rng.Range(1, 2), bufs[rng.Intn(len(bufs))], rng.Range(1, 3), "x")
+}
+
 func genC03Cases(w *bufio.Writer, rng *hx.Rng, tier string) {
 	nrand, ntr, nsave, sweepStep := 300, 40, 8, 2
 	if tier == "thorough" {
@@ -524,6 +568,13 @@ func genC03Cases(w *bufio.Writer, rng *hx.Rng, tier string) {
 	}
 	for i := 0; i < ndep; i++ {
 		c03Depart(w, rng)
+	}
+	nreuse := 6
+	if tier == "thorough" {
+		nreuse = 30
+	}
+	for i := 0; i < nreuse; i++ {
+		c03InodeReuse(w, rng)
 	}
 	nmid := 30
 	if tier == "thorough" {
